@@ -67,7 +67,10 @@ EXTREME = ["A%%=-32767-1:B%%=-1:PRINT A%% %s B%%" % op for op in ("MOD", "\\", "
            "A%=-32767-1:PRINT NOT A%", "A%=-32767-1:PRINT A%\\.4", "A%=-32767-1:PRINT A%^2;A%^0", "PRINT 0^0;2^15;(-2)^15;(-2)^16", "A%=-32767-1:PRINT SGN(A%);INT(A%);FIX(A%);CINT(A%)",
            "A%=-32767-1:PRINT HEX$(A%);OCT$(A%);STR$(A%)", "A%=-32767-1:PRINT CHR$(A%)", "A%=-32767-1:PRINT LEFT$(\"x\",A%)", "A%=-32767-1:PRINT SPC(A%)",
            "A%=-32767-1:PRINT TAB(A%)", "A%=-32767-1:DIM Q9(A%)", "A%=-32767-1:FOR I%=A% TO A%+1 STEP -1:NEXT", "A%=32767:FOR I%=A%-1 TO A%:NEXT",
-           "PRINT 1E38*1E38;-1E38*1E38;1D308*10", "PRINT 1/0", "PRINT 0/0", "PRINT 1\\0", "PRINT 1 MOD 0", "PRINT SQR(-1);SQR(0);SQR(2)"]
+           "PRINT 1E38*1E38;-1E38*1E38;1D308*10", "PRINT 1/0", "PRINT 0/0", "PRINT 1\\0", "PRINT 1 MOD 0", "PRINT SQR(-1);SQR(0);SQR(2)",
+           # temporaries are not held to the 255 limit of stored strings: a concatenation can grow past what LEN can report
+           "X$=STRING$(255,\"x\"):PRINT LEN(" + "+".join(["X$"] * 129) + ")", "X$=STRING$(255,\"x\"):PRINT LEN(" + "+".join(["X$"] * 128) + ")",
+           "X$=STRING$(255,\"x\"):Y$=LEFT$(" + "+".join(["X$"] * 129) + ",3):PRINT Y$", "PRINT TAB(0);\"a\";TAB(.5);\"b\";SPC(0);\"c\""]
 DIRECT = EXTREME + ["RUN", "RUN 20", "LIST", "LIST 10-20", "CONT", "NEW", "RENUM", "RENUM 5,0,0", "RENUM 65529", "DELETE 10", "DELETE 10-", "DELETE",
           "SAVE \"f\"", "LOAD \"f\"", "RUN \"f\"", "CLEAR", "PRINT 1/0", "PRINT -(-32767-1)", "PRINT ABS(-32767-1)", "A$=INKEY$", "INPUT Q", "INPUT Q$,R$",
           "GOTO 10", "GOSUB 10", "RETURN", "NEXT", "WEND", "FOR I=1 TO 1E30", "DIM Z(32767)", "DIM Z(10,10,10,10)", "PRINT STRING$(255,\"x\")+STRING$(255,\"y\")",
